@@ -3,104 +3,6 @@ From PegV Require Import Base.Tac Base.ListX Spec.Syntax Spec.Peg Proofs.PegRel 
   Reader.Base Reader.Lex Reader.Chars Reader.Lits Reader.Expr.
 Local Open Scope Z_scope.
 
-(** * the header: comments and runs of blanks before "package" *)
-Definition is_sp (c : rune) : bool := (c =? 32) || (c =? 9) || (c =? 10) || (c =? 13).
-Inductive hitem :=
-| HCmt (slashes : bool) (body : list rune) (e : list rune)      (* # or //, text, line end *)
-| HSp (run : list rune).                                         (* blanks and line ends *)
-Definition hshow (h : hitem) : list rune :=
-  match h with
-  | HCmt sl body e => (if sl then [47; 47] else [35]) ++ body ++ e
-  | HSp run => run
-  end.
-Definition hcall (h : hitem) : call :=
-  match h with HCmt _ body _ => (CAddComment, body) | HSp run => (CAddSpace, run) end.
-Definition is_eol (e : list rune) : Prop := e = [10] \/ e = [13] \/ e = [13; 10].
-(** an item, given the text behind it: a run of blanks is maximal; "\r" alone is not followed by "\n" *)
-Definition hitem_ok (h : hitem) (tl : list rune) : Prop :=
-  match h with
-  | HCmt _ body e => nolb body /\ is_eol e /\ (e = [13] -> head_ne 10 tl)
-  | HSp run => run <> [] /\ forallb is_sp run = true /\ (forall c r, tl = c :: r -> is_sp c = false)
-  end.
-Fixpoint header_ok (l : list hitem) (tl : list rune) : Prop :=
-  match l with
-  | [] => True
-  | h :: l' => hitem_ok h (flat_map hshow l' ++ tl) /\ header_ok l' tl
-  end.
-
-(** * imports *)
-Definition is_pathc (c : rune) : bool :=
-  ((48 <=? c) && (c <=? 57)) || ((97 <=? c) && (c <=? 122)) || ((65 <=? c) && (c <=? 90)) || (c =? 95) || (c =? 47) || (c =? 46) || (c =? 45).
-Record iname := { in_alias : option (list rune * list rune); in_path : list rune }.
-Definition inshow (n : iname) : list rune :=
-  (match in_alias n with Some (id, s) => id ++ s | None => [] end) ++ 34 :: in_path n ++ [34].
-Definition incalls (n : iname) : list call :=
-  (match in_alias n with Some (id, _) => [(CAddImportAlias, id)] | None => [] end) ++ [(CAddImport, in_path n)].
-Definition iname_ok (n : iname) : Prop :=
-  in_path n <> [] /\ forallb is_pathc (in_path n) = true /\
-  match in_alias n with Some (id, s) => ident_ok id = true /\ lay s | None => True end.
-Inductive imp :=
-| ISingle (s1 : list rune) (n : iname) (s2 : list rune)
-| IMulti (s1 s2 : list rune) (items : list (iname * list rune)) (s3 : list rune).
-Definition kw_import : list rune := [105; 109; 112; 111; 114; 116].
-Definition mitem_show (ns : iname * list rune) : list rune := inshow (fst ns) ++ 10 :: snd ns.
-Definition impshow (i : imp) : list rune :=
-  match i with
-  | ISingle s1 n s2 => kw_import ++ s1 ++ inshow n ++ s2
-  | IMulti s1 s2 items s3 => kw_import ++ s1 ++ 40 :: s2 ++ flat_map mitem_show items ++ 41 :: s3
-  end.
-Definition impcalls (i : imp) : list call :=
-  match i with
-  | ISingle _ n _ => incalls n
-  | IMulti _ _ items _ => flat_map (fun ns => incalls (fst ns)) items
-  end.
-Definition imp_ok (i : imp) : Prop :=
-  match i with
-  | ISingle s1 n s2 => lay s1 /\ iname_ok n /\ lay s2
-  | IMulti s1 s2 items s3 => lay s1 /\ lay s2 /\ lay s3 /\ Forall (fun ns : iname * list rune => iname_ok (fst ns) /\ lay (snd ns)) items
-  end.
-
-(** * rules *)
-Record cdef := { d_name : list rune; d_s1 : list rune; d_uni : bool; d_s2 : list rune; d_body : cx }.
-Definition arrow_text (uni : bool) : list rune := if uni then [8592] else [60; 45].
-Definition dshow (d : cdef) : list rune := d_name d ++ d_s1 d ++ arrow_text (d_uni d) ++ d_s2 d ++ show (d_body d).
-Definition dcalls (d : cdef) : list call := [(CAddRule, d_name d)] ++ xcalls (d_body d) ++ [(CAddExpression, [])].
-Definition def_ok (d : cdef) : Prop := ident_ok (d_name d) = true /\ lay (d_s1 d) /\ lay (d_s2 d) /\ wf (d_body d).
-(** what may follow a rule: the end of the text, or the next rule's name and arrow *)
-Definition defstart (tl : list rune) : Prop :=
-  tl = [] \/ exists id s1 uni s2 rest, tl = id ++ s1 ++ arrow_text uni ++ s2 ++ rest /\ ident_ok id = true /\ lay s1 /\ lay s2 /\ stop rest.
-(** the rules of a file: each is followed by the next; a body that ends in a bare name is the last *)
-Fixpoint defs_ok (l : list cdef) : Prop :=
-  match l with
-  | [] => True
-  | d :: l' => def_ok d /\ (l' <> [] -> glue (d_body d) = false) /\ defs_ok l'
-  end.
-
-(** * the file *)
-Definition kw_package : list rune := [112; 97; 99; 107; 97; 103; 101].
-Definition kw_type : list rune := [116; 121; 112; 101].
-Definition kw_Peg : list rune := [80; 101; 103].
-Record cfile := {
-  f_header : list hitem;
-  f_s_pkg : list rune; f_pkg : list rune; f_s1 : list rune;
-  f_imports : list imp;
-  f_s_type : list rune; f_peg : list rune; f_s2 : list rune;
-  f_s3 : list rune; f_state : list rune; f_s4 : list rune;
-  f_defs : list cdef }.
-Definition fshow (f : cfile) : list rune :=
-  flat_map hshow (f_header f) ++ kw_package ++ f_s_pkg f ++ f_pkg f ++ f_s1 f ++ flat_map impshow (f_imports f) ++
-  kw_type ++ f_s_type f ++ f_peg f ++ f_s2 f ++ kw_Peg ++ f_s3 f ++ 123 :: f_state f ++ 125 :: f_s4 f ++ flat_map dshow (f_defs f).
-Definition fcalls (f : cfile) : list call :=
-  map hcall (f_header f) ++ [(CAddPackage, f_pkg f)] ++ flat_map impcalls (f_imports f) ++
-  [(CAddPeg, f_peg f)] ++ [(CAddState, f_state f)] ++ flat_map dcalls (f_defs f).
-Definition file_ok (f : cfile) : Prop :=
-  header_ok (f_header f) [112] /\
-  lay (f_s_pkg f) /\ f_s_pkg f <> [] /\ ident_ok (f_pkg f) = true /\ lay (f_s1 f) /\ f_s1 f <> [] /\
-  Forall imp_ok (f_imports f) /\
-  lay (f_s_type f) /\ f_s_type f <> [] /\ ident_ok (f_peg f) = true /\ lay (f_s2 f) /\ f_s2 f <> [] /\
-  lay (f_s3 f) /\ bal (f_state f) /\ lay (f_s4 f) /\
-  f_defs f <> [] /\ defs_ok (f_defs f).
-
 Lemma header_ok_tail l c a b : header_ok l (c :: a) -> header_ok l (c :: b).
 Proof.
   induction l as [|h l IH]; cbn [header_ok]; [auto|]. intros [Hh Hl]. split; [|apply IH; exact Hl].
